@@ -373,6 +373,8 @@ class Interp:
             if not tr:
                 break
             prefix = [c for c, _ in tr[:-1]] + [tr[-1][0] + 1]
+        if getattr(self.dom, 'skip_coincidences', False):
+            results = [r for r in results if not any(e.get('kind') == 'coincidence' for e in r.events)]
         return results
 
     # -- calling -----------------------------------------------------------
@@ -1209,6 +1211,15 @@ class Interp:
         if isinstance(a, Tup) and isinstance(b, Tup) and isinstance(op, (ast.Eq, ast.NotEq)):
             if all(isinstance(x, Const) for x in a.items + b.items):
                 return (a.items == b.items) == isinstance(op, ast.Eq)
+            if len(a.items) != len(b.items):
+                return isinstance(op, ast.NotEq)
+            # elementwise: all components decided equal -> equal; one decided different -> different
+            parts = [self.compare(ast.Eq(), x, y, node) for x, y in zip(a.items, b.items)]
+            if any(pv is False for pv in parts):
+                return isinstance(op, ast.NotEq)
+            if all(pv is True for pv in parts):
+                return isinstance(op, ast.Eq)
+            return None
         return None
 
     def ev_IfExp(self, node, frame):
